@@ -90,7 +90,7 @@ def gen_case(rng, tier, index):
     if rng.random() < 0.4:
         if abi == "arm64-elf":
             conv = {"regs": ARGREGS[abi][:rng.randrange(0, 9)],
-                    "align": rng.choice([16, 16, 16, 8]),
+                    "align": rng.choice([16, 16, 16, 8, 32, 64]),
                     "cleanup": True,
                     "shadow": rng.choice([0, 0, 0, 16])}
         else:
